@@ -69,6 +69,7 @@ struct St {
     next_msg: u64,
     warn: bool,
     hook_before: Option<(u64, u64, u64)>,
+    stagger: bool,
     hook_after: Option<(u64, u64, u64)>,
     events: Vec<Value>,
 }
@@ -156,6 +157,9 @@ async fn hook_body(sc: &gherkin::Scenario, which: u64) {
         (if which == 1 { s.hook_before } else { s.hook_after }, if which == 1 { v } else { v.saturating_sub(1) })
     });
     let Some((pre, yields, post)) = cfg else { return };
+    // `stagger`: the hooks of different scenarios suspend for different numbers of polls, so that a scenario gets its
+    // first poll while the hook of another one is suspended
+    let yields = if ST.with(|s| s.borrow().stagger) { yields + (sid % 3) * 15 } else { yields };
     let span = tracing::Span::current().id().map_or(0, |i| i.into_u64());
     verif_trace::record("cbspan", sid * 1_000_000 + (90_000 + which) * 10 + k, span);
     for _ in 0..pre {
@@ -259,6 +263,7 @@ fn main() {
         let mut x = x.borrow_mut();
         x.hook_before = triple(&case["hooks"]["before"]);
         x.hook_after = triple(&case["hooks"]["after"]);
+        x.stagger = case["hooks"]["stagger"].as_bool().unwrap_or(false);
     });
     let res = std::panic::catch_unwind(move || {
         use tracing::Instrument as _;
